@@ -404,27 +404,46 @@ def run(pm, ctx):
     first_draw = next((s for s in cfg.nodes if any(isinstance(c, ast.Call) and isinstance(c.func, ast.Attribute) and c.func.attr in DRAWS for e in cfg.header_exprs(s) for c in ast.walk(e))), None)
     if first_draw is None:
         raise AnalysisError("anchor vanished: draws of draw_gmm")
-    need = {
-        "components of loc vs scale": lambda s: "K != scale.shape[0]" in s,
-        "square covariances": lambda s: "d != scale.shape[1] or d != scale.shape[2]" in s,
-        "components of loc vs pvals": lambda s: "K != pvals.shape[0]" in s,
-        "positive proportions": lambda s: "np.any(pvals <= 0)" in s,
-        "normalised proportions": lambda s: "np.sum(pvals) != 1" in s,
-    }
     raising = [s for s in cfg.nodes if isinstance(s, ast.If) and s.body and isinstance(s.body[-1], ast.Raise)]
-    for name, pred in need.items():
-        hit = [s for s in raising if pred(norm_src(s.test))]
+    sem = [(s_, _guard_semantics(s_.test)) for s_ in raising]
+    need = {
+        "components of loc vs scale": ("ne", frozenset(["K", "scale0"])),
+        "square covariances": ("ne-or", frozenset([frozenset(["d", "scale1"]), frozenset(["d", "scale2"])])),
+        "components of loc vs pvals": ("ne", frozenset(["K", "pvals0"])),
+        "positive proportions": ("some-bad", "pvals<=0"),
+        "normalised proportions": ("sum-ne-1", "pvals"),
+    }
+    for name, key in need.items():
+        hit = [s_ for s_, k in sem if k and k[:2] == key]
+        weak = [s_ for s_, k in sem if k and k[0] == "all-bad" and key[0] == "some-bad" and k[1] == key[1]]
         site = f"draw_gmm: rejects {name}"
-        if hit and cfg.dominates(hit[0], first_draw) or (hit and name == "square covariances" and all(cfg.dominates(p, first_draw) for p, _ in cfg.control_conditions(hit[0]))):
+        if hit and (cfg.dominates(hit[0], first_draw) or (name == "square covariances" and all(cfg.dominates(p, first_draw) for p, _ in cfg.control_conditions(hit[0])))):
             ctx.ok("C20-e", site)
+        elif weak:
+            ctx.violation("C20-e", u.relpath, "draw_gmm", norm_src(weak[0].test), f"`{norm_src(weak[0].test)}` rejects only when ALL entries are invalid: a single invalid entry is accepted",
+                          line=weak[0].lineno, site=site)
+        elif hit:
+            ctx.violation("C20-e", u.relpath, "draw_gmm", name, f"the check for {name} does not precede the first draw", line=hit[0].lineno, site=site)
         else:
-            ctx.violation("C20-e", u.relpath, "draw_gmm", name, f"no raising check for {name} before the first draw", line=f.lineno, site=site)
+            rel = {"components of loc vs scale": {"scale"}, "square covariances": {"scale"}, "components of loc vs pvals": {"pvals"},
+                   "positive proportions": {"pvals"}, "normalised proportions": {"pvals"}}[name]
+            unk = [s_ for s_, k in sem if k is None and rel & {n.id for n in ast.walk(s_.test) if isinstance(n, ast.Name)}
+                   and not any(isinstance(p_, ast.For) for p_ in _parents(s_))]
+            if unk:
+                ctx.unrecognised("C20-e", site, f"raising tests not understood: {[norm_src(x.test)[:50] for x in unk][:3]}")
+            else:
+                ctx.violation("C20-e", u.relpath, "draw_gmm", name, f"no raising check for {name} before the first draw", line=f.lineno, site=site)
     # per-component variance / covariance checks dominate the per-component draws of their branch
-    for label, test_pred, draw in (("non-positive variance (d == 1)", lambda s: s.replace(" ", "") in ("scale[k]<=0",), "normal"),
-                                    ("non-PSD covariance", lambda s: "np.linalg.eigvals(scale[k]) < 0" in s, "multivariate_normal")):
-        chk = [s for s in raising if test_pred(norm_src(s.test))]
+    for label, key, draw in (("non-positive variance (d == 1)", ("some-bad", "scale[k]<=0"), "normal"),
+                             ("non-PSD covariance", ("some-bad", "eig<0"), "multivariate_normal")):
+        chk = [s_ for s_, k in sem if k and k[:2] == key]
+        weak = [s_ for s_, k in sem if k and k[0] == "all-bad" and k[1] == key[1]]
         drw = [s for s in cfg.nodes if any(isinstance(c, ast.Call) and isinstance(c.func, ast.Attribute) and c.func.attr == draw for e in cfg.header_exprs(s) for c in ast.walk(e))]
         site = f"draw_gmm: rejects {label}"
+        if weak and not chk:
+            ctx.violation("C20-e", u.relpath, "draw_gmm", norm_src(weak[0].test), f"`{norm_src(weak[0].test)}` rejects a covariance only when ALL its eigenvalues are negative: an "
+                          f"indefinite matrix (one negative eigenvalue) is accepted and sampled from", line=weak[0].lineno, site=site)
+            continue
         ok = bool(chk) and bool(drw)
         if ok:
             # the checking loop must complete before the drawing loop starts
@@ -433,6 +452,8 @@ def run(pm, ctx):
             ok = cl is not None and dl is not None and cl is not dl and cfg.dominates(cl, dl) and norm_src(cl.iter) in ("range(K)", "range(len(loc))")
         if ok:
             ctx.ok("C20-e", site)
+        elif not chk and [s_ for s_, k in sem if k is None]:
+            ctx.unrecognised("C20-e", site, "raising tests not understood")
         else:
             ctx.violation("C20-e", u.relpath, "draw_gmm", label, f"components are not all checked for {label} before any component is sampled", line=f.lineno, site=site)
     # multivariate_student_t shape check
@@ -444,6 +465,80 @@ def run(pm, ctx):
         ctx.ok("C20-e", "multivariate_student_t: rejects inconsistent location/scale shapes")
     else:
         ctx.violation("C20-e", u.relpath, "multivariate_student_t", "shape check", "location/scale shapes are not checked before sampling", line=f2.lineno, site="student: shapes")
+
+
+def _size_key(e):
+    t = norm_src(e)
+    return {"K": "K", "loc.shape[0]": "K", "len(loc)": "K", "scale.shape[0]": "scale0", "len(scale)": "scale0", "scale.shape[1]": "scale1", "scale.shape[2]": "scale2",
+            "pvals.shape[0]": "pvals0", "len(pvals)": "pvals0", "d": "d", "loc.shape[1]": "d"}.get(t)
+
+
+def _guard_semantics(t):
+    """meaning of a raising test of draw_gmm -> key tuple, or None when it is not understood"""
+    if isinstance(t, ast.Compare) and len(t.ops) == 1 and isinstance(t.ops[0], ast.NotEq):
+        a, b = _size_key(t.left), _size_key(t.comparators[0])
+        if a and b:
+            return ("ne", frozenset([a, b]))
+        # np.sum(pvals) != 1
+        for x, y in ((t.left, t.comparators[0]), (t.comparators[0], t.left)):
+            if isinstance(y, ast.Constant) and y.value == 1 and isinstance(x, ast.Call) and (call_name(x) or "").split(".")[-1] == "sum" and \
+                    (x.args and norm_src(x.args[0]) == "pvals" or isinstance(x.func, ast.Attribute) and norm_src(x.func.value) == "pvals"):
+                return ("sum-ne-1", "pvals")
+        if isinstance(t.left, ast.Call) and (call_name(t.left) or "").split(".")[-1] in ("isclose", "allclose"):
+            return None
+    if isinstance(t, ast.UnaryOp) and isinstance(t.op, ast.Not) and isinstance(t.operand, ast.Call) and (call_name(t.operand) or "").split(".")[-1] in ("isclose", "allclose"):
+        c = t.operand
+        srcs = [norm_src(a) for a in c.args[:2]]
+        if "1" in srcs and any("pvals" in x and "sum" in x for x in srcs):
+            return ("sum-ne-1", "pvals")
+    if isinstance(t, ast.BoolOp) and isinstance(t.op, ast.Or):
+        ks = [_guard_semantics(v) for v in t.values]
+        if all(k and k[0] == "ne" for k in ks):
+            return ("ne-or", frozenset(k[1] for k in ks))
+        return None
+    # quantified element tests
+    def elem_bad(c):
+        """(kind, is_bad) for an element-wise comparison"""
+        if not (isinstance(c, ast.Compare) and len(c.ops) == 1):
+            return None
+        l, r = c.left, c.comparators[0]
+        op = type(c.ops[0])
+        zero = isinstance(r, ast.Constant) and r.value == 0
+        ls = norm_src(l)
+        if zero and ls == "pvals":
+            return {ast.LtE: ("pvals<=0", True), ast.Gt: ("pvals<=0", False)}.get(op)
+        if zero and ls == "scale[k]":
+            return {ast.LtE: ("scale[k]<=0", True), ast.Gt: ("scale[k]<=0", False)}.get(op)
+        if zero and isinstance(l, ast.Call) and (call_name(l) or "").split(".")[-1] in ("eigvals", "eigvalsh") and l.args and norm_src(l.args[0]) == "scale[k]":
+            return {ast.Lt: ("eig<0", True), ast.GtE: ("eig<0", False)}.get(op)
+        return None
+    neg = False
+    core = t
+    if isinstance(core, ast.UnaryOp) and isinstance(core.op, ast.Not):
+        neg, core = True, core.operand
+    q = None
+    inner = None
+    if isinstance(core, ast.Call):
+        cn = core.func.attr if isinstance(core.func, ast.Attribute) else (call_name(core) or "")
+        if cn in ("any", "all"):
+            q = cn
+            is_np = isinstance(core.func, ast.Attribute) and isinstance(core.func.value, ast.Name) and core.func.value.id in ("np", "numpy")
+            inner = core.args[0] if (core.args and (is_np or not isinstance(core.func, ast.Attribute))) else (core.func.value if isinstance(core.func, ast.Attribute) and not is_np else None)
+    if q is None:
+        eb = elem_bad(core)
+        if eb is not None and not neg:      # scalar test
+            return ("some-bad", eb[0]) if eb[1] else None
+        return None
+    eb = elem_bad(inner) if inner is not None else None
+    if eb is None:
+        return None
+    kind, bad = eb
+    # any(bad) / not all(good)  -> rejects iff some element is bad ; all(bad) / not any(good) -> only when all are bad
+    if (q == "any" and bad and not neg) or (q == "all" and not bad and neg):
+        return ("some-bad", kind)
+    if (q == "all" and bad and not neg) or (q == "any" and not bad and neg):
+        return ("all-bad", kind)
+    return None
 
 
 def _is_sqrt(x):
